@@ -28,6 +28,12 @@ type genCtx struct {
 	nameSeq *int
 	inArg   bool // inside a call argument: break/continue cannot leave it
 	faults  bool // sprinkle (fail) host calls: every one is a possible failure point (C05)
+
+	// ext: the further dimensions of the sem family's own programs (gen_ext.go). The other families
+	// that build on genProgram keep the programs they had.
+	ext    bool
+	arrs   []arrVar  // variables holding arrays
+	hashes []hashVar // variables holding hashes with symbol keys (read and written through dot paths)
 }
 
 type weights struct {
@@ -41,6 +47,8 @@ func (c *genCtx) child() *genCtx {
 	n.clos = append([]fnInfo(nil), c.clos...)
 	n.makers = append([]fnInfo(nil), c.makers...)
 	n.labels = append([]string(nil), c.labels...)
+	n.arrs = append([]arrVar(nil), c.arrs...)
+	n.hashes = append([]hashVar(nil), c.hashes...)
 	return &n
 }
 
@@ -92,6 +100,11 @@ func (c *genCtx) intExpr(d int) node {
 			return c.tr(c.intLeaf())
 		}
 		return c.intLeaf()
+	}
+	if c.ext && c.r.intn(100) < 12 {
+		if e := c.extExpr(d); e != nil {
+			return e
+		}
 	}
 	n := c.r.intn(100)
 	switch {
@@ -156,6 +169,11 @@ func (c *genCtx) fresh() string {
 }
 
 func (c *genCtx) boolExpr(d int) node {
+	if c.ext && c.r.intn(100) < 10 {
+		if e := c.extTest(d); e != nil {
+			return e
+		}
+	}
 	if d <= 0 || c.r.intn(4) == 0 {
 		switch c.r.intn(4) {
 		case 0:
@@ -228,6 +246,11 @@ func (c *genCtx) stmts(d, n int) []node {
 }
 
 func (c *genCtx) stmt(d int) node {
+	if c.ext && c.r.intn(100) < 12 {
+		if e := c.extStmt(d); e != nil {
+			return e
+		}
+	}
 	n := c.r.intn(100)
 	switch {
 	case n < 25:
@@ -284,6 +307,9 @@ func (c *genCtx) fnLit(d, np int) node {
 var shadowable = []string{"first", "second", "len", "list", "rest", "not", "cons", "append"}
 
 func (c *genCtx) closureStmt(d int) node {
+	if c.ext && c.r.intn(100) < 30 {
+		return c.extClosureStmt(d)
+	}
 	switch c.r.intn(10) {
 	case 8: // a parameter named like a builtin holds a function: in call position the parameter wins
 		p1, p2 := pick(c.r, shadowable), pick(c.r, shadowable)
@@ -463,6 +489,9 @@ func (c *genCtx) selfCall(d int) node {
 	for i := 1; i < c.self.nparams; i++ {
 		args = append(args, c.arg().intExpr(d-1))
 	}
+	if c.ext && c.r.intn(6) == 0 {
+		c.rebindCallee(*c.self, args)
+	}
 	return nCall(nSym(c.self.name), args...)
 }
 
@@ -488,6 +517,9 @@ func (c *genCtx) callExpr(d int) node {
 	for i := 0; i < n; i++ {
 		args = append(args, c.arg().intExpr(d-1))
 	}
+	if c.ext && n == f.nparams && c.r.intn(10) == 0 {
+		c.rebindCallee(f, args)
+	}
 	return nCall(nSym(f.name), args...)
 }
 
@@ -499,6 +531,9 @@ func (c0 *genCtx) dataExpr(d int) node {
 			es = append(es, c.intExpr(d-1))
 		}
 		return es
+	}
+	if c.ext && c.r.intn(3) == 0 {
+		return c.extData(d, mk)
 	}
 	switch c.r.intn(9) {
 	case 0:
@@ -538,6 +573,12 @@ func (c0 *genCtx) dataExpr(d int) node {
 }
 
 func (c *genCtx) errorForm(d int) node {
+	if c.ext && c.r.intn(3) == 0 {
+		// the variable of a loop that has ended (or never ran): unbound unless a scope was left behind
+		if v := pick(c.r, []string{"i", "j"}); !contains(c.vars, v) {
+			return c.tr(nSym(v))
+		}
+	}
 	switch c.r.intn(6) {
 	case 0:
 		return nSym("unboundvar")
@@ -558,9 +599,18 @@ func genProgram(r *rng, w weights, depth int) []node {
 	return genProgramF(r, w, depth, false)
 }
 
+// genProgramX: genProgram with the further dimensions of gen_ext.go (the sem family's own programs)
+func genProgramX(r *rng, w weights, depth int) []node {
+	return genProgramFX(r, w, depth, false, true)
+}
+
 func genProgramF(r *rng, w weights, depth int, faults bool) []node {
+	return genProgramFX(r, w, depth, faults, false)
+}
+
+func genProgramFX(r *rng, w weights, depth int, faults, ext bool) []node {
 	k, ns := 0, 0
-	c := &genCtx{r: r, k: &k, nameSeq: &ns, w: w, faults: faults}
+	c := &genCtx{r: r, k: &k, nameSeq: &ns, w: w, faults: faults, ext: ext}
 	n := 2 + r.intn(4)
 	var forms []node
 	for i := 0; i < n; i++ {
